@@ -102,7 +102,7 @@ func DrawWorld(t *rapid.T, o WorldOpts) *World {
 	w.BlockTime = time.Duration(blockTime) * time.Second
 	batch := nv + simkit.Int(t, "batchextra", 0, 3)
 	gv, _ := labiSet(w.Vals, w.Weights)
-	mod := &simmod.Config{GenesisValidators: gv, PrecommitThreshold: pre, CertificateThreshold: cert, GenesisState: map[string][]byte{}, BlockEvents: simkit.Bool(t, "blockevents"),
+	mod := &simmod.Config{GenesisValidators: gv, PrecommitThreshold: pre, CertificateThreshold: cert, GenesisState: map[string][]byte{}, BlockEvents: simkit.Bool(t, "blockevents"), QuietBlocks: simkit.Bool(t, "quietblocks"),
 		Asset: simkit.Bool(t, "asset"), StrictNonce: true}
 	// the chain could start above height 0 (the certificate rules treat the first 100 heights specially)
 	// (always 0 for now: Chain.PrepareCache asks for heights below a non-zero genesis height whenever the chain is
